@@ -130,3 +130,27 @@ for _tag, _pops, _comps, _has, _refused in (("targets_both", ["adults"], ["sus"]
         schema=schema, fragment={"iter": "self.programs.values()"}, make_env=_env_validate(_pops, _comps, _has),
         raises=({"Exception": "True"} if _refused else {}), raises_props=["C18"],
         ensures=([] if _refused else [("C18.a_program_with_targets_is_accepted", "True")]), defined_props=["C18"])
+
+
+# ---- ProgramSet._normalize_inputs (C16 / C18: what a program book is read against): an explicit framework / databook wins over the project's, a missing one is taken from the
+# project, and a combination that leaves one of them unknown is refused
+def _env_norm(framework, data, project):
+    def make(it):
+        from pyvc.interp import PyObjV
+        from pyvc import source
+
+        pm = source.load("project")
+        proj = {"full": PyObjV("Project", pm, {"framework": "PROJECT FRAMEWORK", "data": "PROJECT DATA"}), "no_data": PyObjV("Project", pm, {"framework": "PROJECT FRAMEWORK", "data": None}),
+                "no_framework": PyObjV("Project", pm, {"framework": None, "data": "PROJECT DATA"}), None: None}[project]
+        return {"framework": framework, "data": data, "project": proj}
+
+    return make
+
+
+for _tag, _f, _d, _p, _want in (("explicit_inputs", "F", "D", None, ("F", "D")), ("from_the_project", None, None, "full", ("PROJECT FRAMEWORK", "PROJECT DATA")),
+                                ("explicit_data_with_a_project", None, "D", "full", ("PROJECT FRAMEWORK", "D")), ("explicit_framework_with_a_project", "F", None, "full", ("F", "PROJECT DATA"))):
+    CONTRACTS["programs:ProgramSet._normalize_inputs#%s" % _tag] = dict(
+        schema=schema, make_env=_env_norm(_f, _d, _p), ensures=[("C16+C18.explicit_inputs_win_and_missing_ones_come_from_the_project", "result[0] == %r and result[1] == %r" % _want)], defined_props=["C16", "C18"])
+for _tag, _f, _d, _p in (("nothing_given", None, None, None), ("framework_only", "F", None, None), ("data_only", None, "D", None), ("project_without_data", None, None, "no_data"), ("project_without_framework", None, None, "no_framework")):
+    CONTRACTS["programs:ProgramSet._normalize_inputs#%s" % _tag] = dict(
+        schema=schema, make_env=_env_norm(_f, _d, _p), raises={"Exception": "True"}, raises_props=["C18"], ensures=[], defined_props=["C16", "C18"])
